@@ -27,6 +27,9 @@ def run(rep, rng, tier, replay=None):
     skipped = 0
     for c, fi, m, o, timpl in got:
         n_ = SC.case_numbers(c)
+        if not all(math.isfinite(b2f(v)) and b2f(v) > 0 for v in fi["x"]):
+            skipped += 1          # Feynman parameters over/underflowed: outside the property's quantifier
+            continue
         x = [Fr(b2f(v)) for v in fi["x"]]
         shifts = [[Fr(s) for s in sh] for sh in n_["shifts"]]
         masses = [Fr(mm) for mm in n_["masses"]]
@@ -80,9 +83,6 @@ def run(rep, rng, tier, replay=None):
         for (c, fi), c2, o2 in zip(reroute, cases2, res2):
             f2 = SC.impl_fields(o2["f64"]) if "f64" in o2 else dict(tag="panic")
             rep.count(["reroute", c2["edges"], c2["signature"], c2["point"]], True)
-            if f2["tag"] != "ok":
-                rep.violation("property", "sampling fails after re-routing: %s" % str(f2)[:200], case=c2, failing_input=True)
-                continue
             x = [Fr(b2f(v)) for v in fi["x"]]
             worst = Fr(1)
             for cc in (c, c2):
@@ -91,7 +91,10 @@ def run(rep, rng, tier, replay=None):
                 kap = X.cond_estimate(Lm)
                 worst = None if (worst is None or ratio is None or kap is None) else max(worst, ratio * kap)
             if worst is None or worst > Fr(10) ** 7 or not all(math.isfinite(b2f(fi[k])) and b2f(fi[k]) > 0 for k in ["u", "v", "jacobian"]):
-                skipped += 1
+                skipped += 1      # beyond the condition numbers the property quantifies over (a pivot may round to <= 0 there)
+                continue
+            if f2["tag"] != "ok":
+                rep.violation("property", "sampling fails after re-routing (kappa x cancellation %.3g): %s" % (float(worst), str(f2)[:200]), case=c2, failing_input=True)
                 continue
             for k in ["u", "v", "jacobian"]:
                 if not rel_close(b2f(f2[k]), b2f(fi[k]), 1e-10 * float(worst) * max(1.0, abs(b2f(c["edges"][0][3])) * 4)):
